@@ -210,6 +210,26 @@ def run(cfg, w):
         for k in res[0]:
             for idx in np.ndindex(*np.shape(res[0][k])):
                 w.ob_eq(f"shift_invariant:{k}{list(idx)}", res[1][k][idx], res[0][k][idx])
+        # causality with the shipped class and this inflow instant: the survival table has no entry for a cohort later than the
+        # year, and results up to step t0 are those of the inflow cut off after t0
+        sf0 = res[0]["sf"]
+        for t in range(n):
+            for cc in range(t + 1, n):
+                for lab in dsm.labels(shape[1:]):
+                    w.ob_eq(f"real_class:no_share_before_entry[{t},{cc}]{list(lab)}", sf0[(t, cc) + lab], 0)
+        t0 = n - 2
+        I2 = I.copy()
+        I2[t0 + 1:] = 0
+        d2 = dsm.make_dims(y, extra)
+        lt2 = getattr(lm, cfg["lt"])(dims=d2, inflow_at=cfg["inflow_at"], n_pts_per_interval=cfg["npts"], **prm)
+        st2 = dsm.build_stock("idsm", d2, lifetime=lt2, inflow=I2)
+        st2.compute()
+        r2 = _results(st2)
+        for k in ("stock", "outflow", "stock_by_cohort"):
+            a1, a2 = np.asarray(res[0][k]), np.asarray(r2[k])
+            for idx in np.ndindex(*a1.shape):
+                if idx[0] <= t0:
+                    w.ob_eq(f"real_class:causal:{k}{list(idx)}", a2[idx], a1[idx])
         return
     if h in ("labels_real", "labels_ndarray"):
         tab = None
